@@ -115,7 +115,10 @@ def _search_once(case, inits, N):
                 row.append(["nonfinite", 0, repr(v)])
             else:
                 L = int(lens[n, k])
-                row.append([[int(x) for x in y[:max(L, 0), n, k]], L, v])
+                if not 0 <= L <= S:
+                    row.append(["nonfinite", 0, "length %d outside 0..%d" % (L, S)])
+                else:
+                    row.append([[int(x) for x in y[:L, n, k]], L, v])
         out.append(row)
     return {"out": out, "S": int(S), "shape_ok": list(lens.shape) == [NN, W] and list(lp.shape) == [NN, W]}
 
@@ -230,12 +233,12 @@ def eval_rows(workdir, rows, tag, shard=60, timeout=1200):
         return []
     shards = [rows[i:i + shard] for i in range(0, len(rows), shard)]
 
-    def one(arg):
+    def one(arg, to=timeout):
         k, sh = arg
         f = Path(workdir) / f"{tag}_{k}.v"
         f.write_text(_ROWS_HEADER + IMPORTS + "Definition vrows : list (list bool) := [\n  " + ";\n  ".join(sh)
                      + "\n].\nDefinition vres := Eval vm_compute in map vcode vrows.\nPrint vres.\n")
-        p = subprocess.run(["timeout", str(timeout), "coqc", "-Q", str(COQ / "theories"), "PV", "-w", "-all", str(f)],
+        p = subprocess.run(["timeout", str(to), "coqc", "-Q", str(COQ / "theories"), "PV", "-w", "-all", str(f)],
                            cwd=f.parent, capture_output=True, text=True)
         if p.returncode != 0:
             raise CoqError(f"coqc failed on {f}:\n{p.stdout[-1500:]}\n{p.stderr[-3000:]}")
@@ -247,8 +250,23 @@ def eval_rows(workdir, rows, tag, shard=60, timeout=1200):
             raise CoqError(f"{f}: {len(codes)} results for {len(sh)} rows")
         return codes
 
+    def safe(arg):
+        """a row Coq cannot evaluate (e.g. junk the implementation returned makes the term blow up) counts as
+        (not tied, disagrees, rejected) instead of aborting the run"""
+        try:
+            return one(arg)
+        except CoqError:
+            k, sh = arg
+            res = []
+            for j, r in enumerate(sh):
+                try:
+                    res.extend(one((f"{k}x{j}", [r]), to=120))
+                except CoqError:
+                    res.append(0)
+            return res
+
     with ThreadPoolExecutor(max_workers=int(__import__("os").environ.get("VERIF_JOBS", "16"))) as ex:
-        parts = list(ex.map(one, enumerate(shards)))
+        parts = list(ex.map(safe, enumerate(shards)))
     return [[bool(c & 1), bool(c & 2), bool(c & 4)] for part in parts for c in part]
 
 
@@ -292,7 +310,9 @@ def run_impl_adv(case):
                 return {"exc": "inexact"}
             else:
                 L = int(ln[n, k])
-                row.append([[int(x) for x in yn[:max(L, 0), n, k]], L, int(v), int(src[n, k])])
+                if not (0 <= L <= yn.shape[0] and 0 <= int(src[n, k]) < 4000):
+                    return {"exc": "badlen"}
+                row.append([[int(x) for x in yn[:L, n, k]], L, int(v), int(src[n, k])])
         rows.append(row)
     return {"rows": rows, "S": int(yn.shape[0])}
 
@@ -369,15 +389,18 @@ def gen_table(rng, M, V, eos, pinf):
         if eos is not None:
             row[eos % V] += (boost if rng.random() < 0.7 else -boost) * UNIT // 4
         if pinf:
-            keep = rng.randrange(V)
-            row = [x if (i == keep or rng.random() > pinf) else None for i, x in enumerate(row)]
+            # a row with a single finite entry has log-probability exactly 0 there: exact ties between paths
+            # are then common, so (for V >= 3) two entries are always kept
+            keep = set(rng.sample(range(V), 2 if V >= 3 else 1))
+            row = [x if (i in keep or rng.random() > pinf) else None for i, x in enumerate(row)]
         tab.append(row)
     return tab
 
 
 def gen_search(rng):
     V = rng.choice([1, 2, 2, 2, 3, 3, 3, 4])
-    M = rng.choice([2, 3, 4, 5, 5, 6, 7, 7, 8, 9])
+    # few states + many paths = different paths through the same multiset of (state, token) steps: exact ties
+    M = rng.choice([2, 3, 4, 5, 5, 6, 7, 7, 8, 9]) if V <= 2 else rng.choice([5, 7, 9, 11, 13])
     eos = None if rng.random() < 0.22 else rng.randrange(V)
     mi = rng.choice([0, 1, 2, 2, 3, 3, 4, 4, 5, None, None]) if eos is not None else rng.choice([0, 1, 2, 3, 3, 4, 4, 5])
     T = 4 if mi is None else mi
@@ -429,6 +452,11 @@ FIXED_TABLES3 = [
 ]
 
 
+def _fine(table):
+    """irregular low bits (unit 1/4096): sums over different paths do not coincide by accident"""
+    return [[v * 64 + ((v * v * 31 + 7 * v + 13 * i + 5 * j) % 59) for j, v in enumerate(row)] for i, row in enumerate(table)]
+
+
 def gen_exhaustive(tier):
     cases = []
     specs = [(2, FIXED_TABLES, 3)]
@@ -443,7 +471,7 @@ def gen_exhaustive(tier):
                     for width in range(1, wmax + 1):
                         for fin_all in ([False, True] if eos is not None else [False]):
                             for N, inits in ((None, [1]), (3, [0, 1, M - 1])):
-                                cases.append(dict(kind="search", V=V, M=M, a=a, b=b, c=c, unit=64, table=table, width=width, eos=eos,
+                                cases.append(dict(kind="search", V=V, M=M, a=a, b=b, c=c, unit=4096, table=_fine(table), width=width, eos=eos,
                                                   fin_all=fin_all, pad=-100, max_iters=mi, N=N, inits=inits,
                                                   stream="exhaustive"))
     return cases
@@ -778,14 +806,14 @@ def run(chk, cases=None):
           "unbatched and a batch of three initial states")
     corpus = [c for c in load_corpus("C04") if isinstance(c, dict)]
     corpus = [dict(c.get("case", c), stream="corpus") for c in corpus]
-    rnd = [dict(gen_search(chk.rng), stream="random") for _ in range(6000 if thorough else 500)]
-    rnd += [dict(gen_zero_prob(chk.rng), stream="zero-prob") for _ in range(600 if thorough else 80)]
+    rnd = [dict(gen_search(chk.rng), stream="random") for _ in range(12000 if thorough else 500)]
+    rnd += [dict(gen_zero_prob(chk.rng), stream="zero-prob") for _ in range(1500 if thorough else 80)]
     allc = ex + [c for c in corpus if c.get("kind") == "search"] + rnd
     streams = [c.get("stream", "random") for c in allc]
-    results = run_search_cases(chk, allc, meta_budget=(1500 if thorough else 150))
+    results = run_search_cases(chk, allc, meta_budget=(3000 if thorough else 150))
     for c, r, s in zip(allc, results, streams):
         chk.note_case(c, nontrivial(c, r), s)
-    adv = [gen_adv(chk.rng) for _ in range(8000 if thorough else 700)]
+    adv = [gen_adv(chk.rng) for _ in range(12000 if thorough else 700)]
     adv = [dict(c) for c in corpus if c.get("kind") == "advance"] + adv
     for c in adv:
         c.pop("stream", None)
